@@ -2,6 +2,7 @@ import Ruint.Lemmas.RedcGen
 import Ruint.Gen.RedcFacts
 import Ruint.Lemmas.GenRedcLoops
 import Ruint.Lemmas.GenRedcSquare
+import Ruint.Lemmas.GenUintModRedc
 
 /-!
 # C11 — Montgomery multiplication and squaring compute `a·b·R⁻¹ mod m`
@@ -209,5 +210,25 @@ example : squareRedc W keepSq 0xb5efe63d2eb11b5f [0xffffffffffffff60, 0xffffffff
     [0xffffffffffffff61, 0xffffffffffffffff] = some [0xb5efe63d2eb11af1, 0xb11b5efe63d2eb11] := by decide +kernel
 example : uintMulRedc keepMul 65 0x7d6343eb1a1f58d1 [0xffffffffffffffce, 1] [0xffffffffffffffcc, 1]
     [0xffffffffffffffcf, 1] = some [0x8c6be6d64f8a49d9, 1] := by decide +kernel
+
+/-! ### the `Uint` wrappers regenerated from `src/modular.rs`
+
+`Uint::mul_redc` / `Uint::square_redc` (the `BITS == 0` arm, the generated kernels, `from_limbs` with its `assert!`) as the
+source defines them yield the model's result whenever the model succeeds (the model's `none` also covers the library's
+`debug_assert!`s, which the translation does not contain). -/
+
+theorem gen_uint_mul_redc_eq (bits : ℕ) (hN : nlimbs bits < 2 ^ 64) (a b md : List ℕ) (inv : ℕ)
+    (ha : a.length = nlimbs bits) (hb : b.length = nlimbs bits) (hmd : md.length = nlimbs bits)
+    (f : ℕ) (hf : nlimbs bits < f) (r : List ℕ)
+    (hm : Ruint.Redc.uintMulRedc keepMul bits inv a b md = some r) :
+    Ruint.Gen.uint_mul_redc f bits (nlimbs bits) a b md inv = some r :=
+  Ruint.GenUintMod.mul_redc_eq bits hN a b md inv ha hb hmd f hf r hm
+
+theorem gen_uint_square_redc_eq (bits : ℕ) (hN : nlimbs bits < 2 ^ 64) (a md : List ℕ) (inv : ℕ)
+    (ha : a.length = nlimbs bits) (hmd : md.length = nlimbs bits)
+    (f : ℕ) (hf : nlimbs bits < f) (r : List ℕ)
+    (hm : Ruint.Redc.uintSquareRedc keepSq bits inv a md = some r) :
+    Ruint.Gen.uint_square_redc f bits (nlimbs bits) a md inv = some r :=
+  Ruint.GenUintMod.square_redc_eq bits hN a md inv ha hmd f hf r hm
 
 end Ruint.C11
